@@ -293,7 +293,7 @@ def reference_table(src_dir: Path) -> dict:
             if sg is not None:
                 entry["locals"] = [[v, list(s)] for v, s in sg.items()]
             table[f"{p.stem}:{qn}"] = entry
-        table[f"{p.stem}:<module>"] = {"names": sorted(_module_level_names(tree))}
+        table[f"{p.stem}:<module>"] = {"names": sorted(_module_level_names(tree)), "classes": sorted(c.name for c in tree.body if isinstance(c, ast.ClassDef))}
     return table
 
 
@@ -311,6 +311,148 @@ def _module_level_names(tree: ast.Module) -> Set[str]:
             elif isinstance(x, ast.ExceptHandler):
                 todo.extend(x.body)
     return out
+
+
+def _erase_new_records(tree: ast.Module, known_classes: Set[str]) -> int:
+    """A NamedTuple class the reference tree does not have, with plain fields only, is a tuple with names: `C(a, b)` is `(a, b)`, and `v.field` is `v[i]`
+    for every local v all of whose bindings are such constructor calls, or calls of module functions all of whose returns are.  (A NamedTuple IS a tuple:
+    unpacking, indexing, equality and hashing are unchanged; only repr and type differ.)  Together with the temp / tuple folding that follows, values that were
+    merely packed to travel together read as before."""
+    import copy
+    recs: Dict[str, List[str]] = {}
+    defaults: Dict[str, Dict[str, ast.AST]] = {}
+    for c in tree.body:
+        if not isinstance(c, ast.ClassDef) or c.name in known_classes or c.decorator_list or c.keywords:
+            continue
+        if not any((isinstance(b, ast.Name) and b.id == "NamedTuple") or (isinstance(b, ast.Attribute) and b.attr == "NamedTuple") for b in c.bases):
+            continue
+        fields, dflt, ok = [], {}, True
+        for st in c.body:
+            if isinstance(st, ast.Expr) and isinstance(st.value, ast.Constant):
+                continue
+            if isinstance(st, ast.AnnAssign) and isinstance(st.target, ast.Name):
+                fields.append(st.target.id)
+                if st.value is not None:
+                    if not isinstance(st.value, ast.Constant):
+                        ok = False
+                    dflt[st.target.id] = st.value
+            else:
+                ok = False
+        if ok and fields:
+            recs[c.name] = fields
+            defaults[c.name] = dflt
+    if not recs:
+        return 0
+    k = 0
+
+    def ctor(e):
+        return isinstance(e, ast.Call) and isinstance(e.func, ast.Name) and e.func.id in recs and not any(isinstance(a, ast.Starred) for a in e.args) \
+            and all(kw.arg for kw in e.keywords)
+    # functions that always hand back one kind of record
+    returns_rec: Dict[str, str] = {}
+    for st in tree.body:
+        if isinstance(st, ast.FunctionDef):
+            rets = [r for r in ast.walk(st) if isinstance(r, ast.Return)]
+            kinds = {r.value.func.id if r.value is not None and ctor(r.value) else None for r in rets}
+            if rets and len(kinds) == 1 and None not in kinds and not any(isinstance(n, (ast.Yield, ast.YieldFrom)) for n in ast.walk(st)):
+                returns_rec[st.name] = kinds.pop()
+
+    def kind_of(v) -> Optional[str]:
+        if ctor(v):
+            return v.func.id
+        if isinstance(v, ast.Call) and isinstance(v.func, ast.Name) and v.func.id in returns_rec:
+            return returns_rec[v.func.id]
+        return None
+    for qn, fn in functions(tree):
+        binds: Dict[str, Set[Optional[str]]] = {}
+        for n in _own_nodes(fn):
+            if isinstance(n, ast.Assign):
+                for t in n.targets:
+                    if isinstance(t, ast.Name):
+                        binds.setdefault(t.id, set()).add(kind_of(n.value))
+                    else:
+                        for m in ast.walk(t):
+                            if isinstance(m, ast.Name):
+                                binds.setdefault(m.id, set()).add(None)
+            elif isinstance(n, (ast.For, ast.AugAssign, ast.AnnAssign, ast.With, ast.NamedExpr, ast.comprehension)):
+                tg = n.target if hasattr(n, "target") else None
+                if tg is not None:
+                    for m in ast.walk(tg):
+                        if isinstance(m, ast.Name):
+                            binds.setdefault(m.id, set()).add(kind_of(n.value) if isinstance(n, ast.NamedExpr) else None)
+        for p_ in _params(fn):
+            binds.setdefault(p_.lstrip("*"), set()).add(None)
+        typed = {v: next(iter(ks)) for v, ks in binds.items() if len(ks) == 1 and None not in ks}
+        for n in list(_own_nodes(fn)):
+            for field, val in list(ast.iter_fields(n)):
+                items = val if isinstance(val, list) else [val]
+                for idx, a in enumerate(items):
+                    if not isinstance(a, ast.Attribute) or not isinstance(a.ctx, ast.Load):
+                        continue
+                    kind = typed.get(a.value.id) if isinstance(a.value, ast.Name) else kind_of(a.value)
+                    if kind is None or a.attr not in recs[kind]:
+                        continue
+                    sub = ast.copy_location(ast.Subscript(value=a.value, slice=ast.Constant(value=recs[kind].index(a.attr)), ctx=ast.Load()), a)
+                    if isinstance(val, list):
+                        val[idx] = sub
+                    else:
+                        setattr(n, field, sub)
+                    k += 1
+    # constructor calls become tuples
+    class T(ast.NodeTransformer):
+        def visit_Call(self, e):
+            self.generic_visit(e)
+            nonlocal k
+            if not ctor(e):
+                return e
+            fields = recs[e.func.id]
+            vals: Dict[str, ast.AST] = dict(zip(fields, e.args))
+            for kw in e.keywords:
+                if kw.arg not in fields or kw.arg in vals:
+                    return e
+                vals[kw.arg] = kw.value
+            for f_ in fields:
+                if f_ not in vals:
+                    if f_ in defaults[e.func.id]:
+                        vals[f_] = copy.deepcopy(defaults[e.func.id][f_])
+                    else:
+                        return e
+            k += 1
+            return ast.copy_location(ast.Tuple(elts=[vals[f_] for f_ in fields], ctx=ast.Load()), e)
+    for st in tree.body:
+        if isinstance(st, ast.ClassDef) and st.name in recs:
+            continue
+        T().visit(st)
+    # (a, b)[i] with everything else plain is the i-th element
+    class F(ast.NodeTransformer):
+        def visit_Subscript(self, e):
+            self.generic_visit(e)
+            if isinstance(e.value, ast.Tuple) and isinstance(e.slice, ast.Constant) and isinstance(e.slice.value, int) and isinstance(e.ctx, ast.Load) \
+                    and 0 <= e.slice.value < len(e.value.elts) and all(_pure(x) for i_, x in enumerate(e.value.elts) if i_ != e.slice.value):
+                return e.value.elts[e.slice.value]
+            return e
+    if k:
+        F().visit(tree)
+        ast.fix_missing_locations(tree)
+    return k
+
+
+def _fold_tuple_subscripts(tree: ast.AST) -> int:
+    k = 0
+
+    class F(ast.NodeTransformer):
+        def visit_Subscript(self, e):
+            nonlocal k
+            self.generic_visit(e)
+            if isinstance(e.value, ast.Tuple) and isinstance(e.slice, ast.Constant) and isinstance(e.slice.value, int) and isinstance(e.ctx, ast.Load) \
+                    and 0 <= e.slice.value < len(e.value.elts) and all(_pure(x) for i_, x in enumerate(e.value.elts) if i_ != e.slice.value):
+                k += 1
+                return e.value.elts[e.slice.value]
+            return e
+    F().visit(tree)
+    if k:
+        ast.fix_missing_locations(tree)
+    return k
 
 
 def _fold_new_module_constants(tree: ast.Module, known: Set[str]) -> int:
@@ -1099,6 +1241,120 @@ def _generator_helpers_to_genexp(tree: ast.Module, stem: str, ref: dict) -> int:
         fn.body = doc + [ast.copy_location(ast.Return(value=gen), body[-1])]
         ast.fix_missing_locations(fn)
         k += 1
+    return k
+
+
+def _inline_walrus(fn, keep: Set[str]) -> int:
+    """`(x := E)` with x a local the reference tree does not have, bound nowhere else, E a plain read (names, attributes, constant subscripts) none of whose names
+    is re-bound in the function after the binding, and every read of x inside the statement that holds the binding (its test and the blocks under it): x is E."""
+    import copy
+    k = 0
+    params = {p.lstrip("*") for p in _params(fn)}
+    for holder in list(_own_nodes(fn)):
+        if not isinstance(holder, (ast.If, ast.While, ast.Assign, ast.Expr, ast.Return)):
+            continue
+        top = holder.test if isinstance(holder, (ast.If, ast.While)) else holder.value
+        if top is None:
+            continue
+        for w in [n for n in ast.walk(top) if isinstance(n, ast.NamedExpr)]:
+            x = w.target.id
+            if x in keep or x in params or not _pure(w.value) or any(isinstance(n, ast.Call) for n in ast.walk(w.value)):
+                continue
+            stores = [n for n in ast.walk(fn) if isinstance(n, ast.Name) and n.id == x and not isinstance(n.ctx, ast.Load)]
+            if len(stores) != 1:
+                continue
+            inside = {id(n) for n in ast.walk(holder)}
+            loads = [n for n in ast.walk(fn) if isinstance(n, ast.Name) and n.id == x and isinstance(n.ctx, ast.Load)]
+            if any(id(n) not in inside for n in loads):
+                continue
+            enames = {n.id for n in ast.walk(w.value) if isinstance(n, ast.Name)}
+            rebound = [n for n in ast.walk(holder) if isinstance(n, ast.Name) and n.id in enames and not isinstance(n.ctx, ast.Load)]
+            if rebound or isinstance(holder, ast.While):
+                continue
+            if any(isinstance(n, ast.Call) and isinstance(n.func, ast.Attribute) and n.func.attr in _MUTATORS and any(isinstance(m, ast.Name) and m.id in enames for m in ast.walk(n.func.value))
+                   for n in ast.walk(holder)):
+                continue
+
+            class S(ast.NodeTransformer):
+                def visit_NamedExpr(self, n):
+                    if n is w:
+                        return copy.deepcopy(w.value)
+                    return self.generic_visit(n)
+
+                def visit_Name(self, n):
+                    if n.id == x and isinstance(n.ctx, ast.Load):
+                        return copy.deepcopy(w.value)
+                    return n
+            S().visit(holder)
+            ast.fix_missing_locations(holder)
+            k += 1
+    return k
+
+
+def _split_tuple_temps(fn, keep: Set[str]) -> int:
+    """`v = (e0, .., en)` directly followed by a statement that reads v only as `v[0]`, `v[1]`, ... (constant indices, each at most once, in that order), v a
+    new local read nowhere else: each `v[i]` is `e_i`, provided the elements left out and everything else the statement evaluates are plain reads (nothing
+    is evaluated in another order that could tell)."""
+    import copy
+    k = 0
+    params = {p.lstrip("*") for p in _params(fn)}
+    for owner in list(_own_nodes(fn)) + [fn]:
+        for field in ("body", "orelse", "finalbody"):
+            blk = getattr(owner, field, None)
+            if not (isinstance(blk, list) and blk and isinstance(blk[0], ast.stmt)):
+                continue
+            i = 0
+            while i + 1 < len(blk):
+                a, b = blk[i], blk[i + 1]
+                i += 1
+                if not (isinstance(a, ast.Assign) and len(a.targets) == 1 and isinstance(a.targets[0], ast.Name) and isinstance(a.value, ast.Tuple)):
+                    continue
+                v = a.targets[0].id
+                if v in keep or v in params or isinstance(b, (ast.For, ast.While, ast.If, ast.With, ast.Try) + _FUNC):
+                    continue
+                if sum(1 for n in ast.walk(fn) if isinstance(n, ast.Name) and n.id == v and not isinstance(n.ctx, ast.Load)) != 1:
+                    continue
+                loads = [n for n in ast.walk(fn) if isinstance(n, ast.Name) and n.id == v and isinstance(n.ctx, ast.Load)]
+                subs = [n for n in ast.walk(b) if isinstance(n, ast.Subscript) and isinstance(n.value, ast.Name) and n.value.id == v and isinstance(n.ctx, ast.Load)
+                        and isinstance(n.slice, ast.Constant) and isinstance(n.slice.value, int) and 0 <= n.slice.value < len(a.value.elts)]
+                if not loads or len(subs) != len(loads) or {id(n.value) for n in subs} != {id(n) for n in loads}:
+                    continue
+                subs.sort(key=lambda n: (n.lineno, n.col_offset))
+                idxs = [n.slice.value for n in subs]
+                if idxs != sorted(set(idxs)):
+                    continue
+                if not all(_pure(e) for j, e in enumerate(a.value.elts) if j not in idxs):
+                    continue
+                # everything else evaluated by b must be plain
+                sub_ids = {id(n) for n in subs}
+
+                def plain(e) -> bool:
+                    if id(e) in sub_ids:
+                        return True
+                    if isinstance(e, (ast.Dict,)):
+                        return all(x is None or plain(x) for x in e.keys) and all(plain(x) for x in e.values)
+                    if isinstance(e, (ast.Tuple, ast.List, ast.Set)):
+                        return all(plain(x) for x in e.elts)
+                    if isinstance(e, ast.Call):
+                        return _pure(e.func) and all(plain(x) for x in e.args) and all(plain(kw.value) for kw in e.keywords) and \
+                            sum(1 for n in ast.walk(e) if id(n) in sub_ids) == len(subs)  # a call may only come last: it must hold every use
+                    if isinstance(e, ast.keyword):
+                        return plain(e.value)
+                    return _pure(e)
+                tops = [x for x in (getattr(b, "value", None), *(getattr(b, "targets", []) or [])) if x is not None]
+                if not tops or not all(plain(x) for x in tops):
+                    continue
+
+                class S(ast.NodeTransformer):
+                    def visit_Subscript(self, n):
+                        if id(n) in sub_ids:
+                            return copy.deepcopy(a.value.elts[n.slice.value])
+                        return self.generic_visit(n)
+                S().visit(b)
+                ast.fix_missing_locations(b)
+                del blk[i - 1]
+                i -= 1
+                k += 1
     return k
 
 
@@ -2194,12 +2450,21 @@ class Normalizer:
         mod_entry = self.ref.get(f"{stem}:<module>")
         if mod_entry is not None:
             self.constants_folded += _fold_new_module_constants(tree, set(mod_entry["names"]))
+            if "classes" in mod_entry:
+                self.records_erased = getattr(self, "records_erased", 0) + _erase_new_records(tree, set(mod_entry["classes"]))
         if INLINE_HELPERS and self.ref:
             self.helpers_inlined += 0 * _generator_helpers_to_genexp(tree, stem, self.ref)
-            for _ in range(2):
+            for _ in range(3):
                 n_ = _inline_new_helper_calls(tree, stem, self.ref)
                 self.helpers_inlined += n_
-                if not n_:
+                # helpers of helpers: once a new function's own temporaries are gone it may itself be a single expression
+                m_ = 0
+                for qn_, fn_ in functions(tree):
+                    if f"{stem}:{qn_}" not in self.ref and "." not in qn_:
+                        m_ += _split_tuple_temps(fn_, set()) + _inline_temp_returns(fn_)
+                if m_:
+                    _fold_tuple_subscripts(tree)
+                if not n_ and not m_:
                     break
             self.helper_bodies_inlined += _inline_new_helper_statements(tree, stem, self.ref)
             self.helpers_inlined += _inline_new_helper_calls(tree, stem, self.ref)
@@ -2216,6 +2481,8 @@ class Normalizer:
             self.renamed += [f"{stem}.{qn}: {x}" for x in _merge_split_names(fn, entry)]
             if INLINE_TEMPS and "locals" in entry:
                 keep = {v for v, _ in entry["locals"]} | {p.lstrip("*") for p in entry["params"]}
+                self.pure_temps += _inline_walrus(fn, keep)
+                self.pure_temps += _split_tuple_temps(fn, keep)
                 self.folded += _fold_accumulators(fn, keep)
                 self.pure_temps += _inline_pure_temps(fn, keep)
                 self.temps += _inline_adjacent_temps(fn, keep)
@@ -2227,6 +2494,8 @@ class Normalizer:
                         self.folded += _fold_accumulators(fn, keep)
                         self.pure_temps += _inline_pure_temps(fn, keep)
                         self.temps += _inline_adjacent_temps(fn, keep)
+        if getattr(self, "records_erased", 0):
+            _fold_tuple_subscripts(tree)
         self.log_stmts += _strip_logging(tree)
 
     def _params(self, stem, qn, fn, entry):
